@@ -12,7 +12,16 @@ for id in sorted(os.listdir('/verif/seeded')):
     props = sorted(set(c.split(':')[0] for c in caught))
     conf = open(d + '/confirm.txt').read() if os.path.exists(d + '/confirm.txt') else ''
     prop = id[:3]
+    seedmd = open(d + '/SEED.md').read() if os.path.exists(d + '/SEED.md') else ''
+    mm = re.search(r'^#+\s*\(c\)[^\n]*\n(.*?)(?=^#+\s*\(d\))', seedmd, re.S | re.M)
+    needs = re.sub(r'\s+', ' ', mm.group(1)).strip()[:1500] if mm else ''
+    demo = open(d + '/demo.diff').read() if os.path.exists(d + '/demo.diff') else ''
+    demofiles = sorted(set(re.findall(r'^\+\+\+ b/(\S+)', demo, re.M)))
+    demotests = sorted(set(re.findall(r'^\+func (TestSeedDemo\w*)', demo, re.M)))
     meta = {'property': prop, 'origin': 'sub-agent working from the property text only, in a scratch worktree', 'files': files,
+            'needs_to_manifest': needs, 'demonstration': {'files': demofiles, 'tests': demotests},
+            'what_was_run': ['tools/seedconfirm.sh ' + id + ': on an rsync copy of /repo (removed afterwards): apply patch.diff; go build ./...; go test -vet=off -count=1 ./... (existing suite); apply demo.diff; go test -run SeedDemo <demo packages> (must fail); revert patch.diff; go test -run SeedDemo (must pass) -> confirm.txt',
+                             'tools/seedeval.sh ' + prop + ' ' + id + ': apply patch.diff to a scratch copy of /repo and run vcheck -p all -tier quick -repo <copy> -> caught.txt'],
             'caught_by_properties': props, 'caught_by_own_property': prop in props, 'reports': caught,
             'confirmed': {'builds': 'build: ok' in conf, 'existing_suite_passes': 'existing suite with change: pass' in conf,
                           'demo_fails_with_change': 'demo with change: fails' in conf, 'demo_passes_without_change': 'demo without change: pass' in conf}}
